@@ -15,6 +15,8 @@ def rating_check(ctx):
     viol = list(s['violations'])
     v2, st = record_and_validate(ctx, 'C15', n=200000 if thorough else 6000)
     viol += v2
+    sc = ctx.harness('ratingconc', prop='C15', n=1000000 if thorough else 100000, **{'in': r['out']})   # every CPU inside Rating at once
+    viol += sc['violations']
     for k in range(150 if thorough else 40):   # first Rating calls of fresh processes, made concurrently
         s0 = ctx.harness('coldstart', prop='C15', **{'in': r['out'], 'seed': ctx.seed * 100 + k})
         viol += s0['violations']
@@ -37,6 +39,9 @@ def nomen_check(ctx):
     viol = list(s['violations'])
     v2, st = record_and_validate(ctx, 'C16', n=5000 if thorough else 300)
     viol += v2
+    from .objfam import spec_tables
+    sh = ctx.harness('sharedread', prop='C16', aux=json.dumps(spec_tables(ctx)), n=30000 if thorough else 4000)   # Nomenclature while other goroutines read / score the same objects
+    viol += sh['violations']
     cov = dict(traces_validated_against_impl=st['events'] + s['evaluations'], evaluations=st['events'] + s['evaluations'],
                distinct_nontrivial=s['distinct_nontrivial'],
                rule='TLC enumerates: no optional metric, each optional metric alone x each value (incl. explicit X), adjacent pairs, all, '
